@@ -224,12 +224,14 @@ func (l *Log) Append(b []byte) error {
 		if err := l.Commit(); err != nil {
 			return err
 		}
+		verifPoint("roll.committed", l.last)
 		s, err := openSegment(l.dir, l.LastIndex(), l.opt)
 		if err != nil {
 			return err
 		}
 		connect(l.last, s)
 		l.last = s
+		verifPoint("roll.connected", s)
 	}
 	l.last.append(b)
 	return nil
@@ -262,6 +264,7 @@ func (l *Log) RemoveLTE(i uint64) error {
 	if err := l.Commit(); err != nil {
 		return err
 	}
+	verifPoint("removeLTE.committed", l.last)
 	for l.first != l.last {
 		if l.first.n > 0 && l.first.lastIndex() <= i {
 			s := l.first
@@ -283,6 +286,7 @@ func (l *Log) RemoveGTE(i uint64) error {
 	if err := l.Commit(); err != nil {
 		return err
 	}
+	verifPoint("removeGTE.committed", l.last)
 	for {
 		if i <= l.last.prevIndex+1 {
 			if l.last == l.first && i == l.last.prevIndex+1 {
@@ -331,11 +335,13 @@ func (l *Log) Reset(lastIndex uint64) error {
 		}
 		l.first = l.first.next
 	}
+	verifPoint("reset.removed", nil)
 
 	s, err := openSegment(l.dir, lastIndex, l.opt)
 	if err != nil {
 		return err
 	}
+	verifPoint("reset.done", s)
 	l.first, l.last = s, s
 	return nil
 }
